@@ -1,25 +1,25 @@
 SPECIFICATION Spec
 CONSTANTS
-  Targets <- T1
-  Sensors <- S1
+  Targets <- T2
+  Sensors <- S2
   InitTargets <- T1
-  InitSensors <- S1
+  InitSensors <- S2
   Engines <- E1
   EngTargets <- AllT
   EngSensors <- AllS
   Policy <- PolGreedy
   NSteps = 3
   Dt = 3
-  OutDt = 3
-  Events <- Imp3
+  OutDt = 6
+  Events <- AddRemove
   WithEstimation = TRUE
   WithSerendipity = FALSE
-  WithFaults = FALSE
+  WithFaults = TRUE
   ResetChangesPerJob = FALSE
   MissListSquared = FALSE
   KeepMissedAcrossSteps = FALSE
   PriorityToAllEngines = FALSE
-  PruneKeepsEqual = TRUE
+  PruneKeepsEqual = FALSE
   PartialCommit = FALSE
 INVARIANT OneRecordPerTasking
 INVARIANT NoRecordWithoutTasking
